@@ -38,7 +38,14 @@ def rand_W(rng, N, big_tilt=None):
     W[:, np.arange(3, 6), np.arange(3, 6)] = d_b
     L = np.tril(rng.normal(size=(N, 6, 6)), -1) * rng.choice([0.0, 0.1, 0.3], N)[:, None, None]
     dm = np.minimum(np.abs(W[:, np.arange(6), np.arange(6)])[:, :, None], np.abs(W[:, np.arange(6), np.arange(6)])[:, None, :])
-    return W + L * dm
+    W = W + L * dm
+    # long-converged filters: the whole factor 1e-6..1e-1 of the above (every standard deviation far below any absolute
+    # constant a step function might compare with); not for the rows that aim above the 0.1 roll/pitch gate
+    sc = np.where(rng.random(N) < 0.25, O.loguniform(rng, 1e-6, 1e-1, N), 1.0)
+    if big_tilt is not None:
+        sc = np.where(big_tilt, 1.0, sc)
+    W = W * sc[:, None, None]
+    return W
 
 
 def B_n(decl, incl, strength=1.0):
